@@ -25,7 +25,10 @@ RULE = ("TLC enumerates every obstacle descriptor of MC_Occupancy.tla: dynamic o
         "first prediction step (trajectory / set-based / phantom first step t0+1+g): g = 0 with the full product, g in "
         "{1, 2} x all t0 x all predictions x a reduced set (3 shapes x 2 quarter turns; thorough: all), phantoms with "
         "g 0..2, an uncertain trajectory state behind a gap of 2; NEGATIVE gaps (prediction overlaps the initial step or "
-        "starts before it): (t0, g) in {(1,-1), (1,-2), (2,-1), (2,-2), (2,-3)} x 2 shapes x {KS, PM trajectories of 1..3, "
+        "starts before it); set-based predictions whose stored occupancies hold for time INTERVALS (6 families: touching "
+        "even / odd, overlapping, nested, disjoint, mixed with plain steps; ascending, descending, rotated list order) for "
+        "dynamic (t0 0, 1) and phantom obstacles, and scenarios of one or two of them with all scenario-level queries for t "
+        "0..8; negative gaps: (t0, g) in {(1,-1), (1,-2), (2,-1), (2,-2), (2,-3)} x 2 shapes x {KS, PM trajectories of 1..3, "
         "set-based of 1..2}.  Each is queried with occupancy_at_time and "
         "state_at_time for t in 0..8 (before, t0, gap, inside, last, after).  Scenarios: every subset of <= 3 (thorough: 4) "
         "of 9 reduced descriptors (one set-based with gap 1, one trajectory with gap 2) x "
@@ -62,6 +65,8 @@ ASSUMPTIONS = ["poses on the integer lattice with quarter-turn orientations; poi
                "predictions that overlap the initial time step or start before it (gap < 0; constructed that way or "
                "re-attached after update_initial_state): initial state at the initial step, None before, prediction only "
                "afterwards; a constructor that refuses such a prediction is accepted",
+               "where several stored occupancies cover t each of them is an admissible answer (and the position filter is an "
+               "EITHER band); the scenario-level list must consist of the very answers the obstacles give (field per)",
                "obstacles_by_position_intervals: an occupancy without a centre (stored ShapeGroup) is an EITHER band; "
                "intervals are closed"]
 
@@ -237,8 +242,10 @@ def _prediction(o):
         sts = [_state(s) for s in p["states"]]
         return TrajectoryPrediction(Trajectory(p["states"][0]["t"], sts), _shape(o["shape"]))
     if p["k"] == "set":
-        return SetBasedPrediction(p["occs"][0]["t"], [Occupancy(c["t"], _shape(c["shape"], tuple(c["pose"])))
-                                                      for c in p["occs"]])
+        from commonroad.common.util import Interval
+        return SetBasedPrediction(min(c["t"] for c in p["occs"]),
+                                  [Occupancy(Interval(c["t"], c["t2"]) if "t2" in c else c["t"],
+                                             _shape(c["shape"], tuple(c["pose"]))) for c in p["occs"]])
     return None
 
 
@@ -380,6 +387,9 @@ def _where(o, t):
         return "any"
     g = o["pred"].get("g", 0)
     last = o["t0"] + g + _plen(o)
+    if o["pred"]["k"] == "set":                                   # stored occupancies may hold for intervals, in any order
+        g = min(c["t"] for c in o["pred"]["occs"]) - o["t0"] - 1
+        last = max(c.get("t2", c["t"]) for c in o["pred"]["occs"])
     ovl = "(overlap)" if o["role"] == "dynamic" and g < 0 and o["t0"] + 1 + g <= t else ""   # the prediction covers t <= t0
     if t == o["t0"] and o["role"] == "dynamic":
         return "t0" + ovl
@@ -402,9 +412,17 @@ def _src_state(o, t):
     return None
 
 
+def _has_intervals(o):
+    return o["pred"]["k"] == "set" and any("t2" in c for c in o["pred"]["occs"])
+
+
+def _pk(o):
+    return "set-intervals" if _has_intervals(o) else o["pred"]["k"]
+
+
 def _sig(op, o, t):
     shape = _SHAPE_NAME[o["shape"]["k"]] if "shape" in o else "stored"
-    return "%s/%s/%s/%s/t=%s" % (op, o["role"], o["pred"]["k"], shape, _where(o, t))
+    return "%s/%s/%s/%s/t=%s" % (op, o["role"], _pk(o), shape, _where(o, t))
 
 
 def _unc_sig(o, s):
@@ -447,7 +465,7 @@ def _exec_ob(case):
             except Exception as ex:
                 res = _exc(ex)
             sig = "state_at_time/phantom" if o["role"] == "phantom" else \
-                "state_at_time/%s/%s/t=%s" % (o["role"], o["pred"]["k"], _where(o, t))   # a phantom never has states
+                "state_at_time/%s/%s/t=%s" % (o["role"], _pk(o), _where(o, t))   # a phantom never has states
             ev.append({"op": "state_at_time", "o": o, "t": t, "res": res, "sig": sig})
     return {"ev": ev}
 
@@ -473,15 +491,22 @@ def _exec_sc(case):
         except Exception as ex:
             e["res"] = _exc(ex)
         ev.append(e)
+    ivl = any(_has_intervals(o) for o in S if o["role"] in ("dynamic", "phantom"))
+    tag = "/set-intervals" if ivl else ""
     for t in range(0, case["tmax"] + 1):
         for r in case["roles"]:
-            call({"op": "occupancies_at_time_step", "S": S, "t": t, "role": r, "sig": "occupancies_at_time_step/role=" + r},
-                 lambda: {"k": "ok", "occs": [_occ_key(c) for c in sc.occupancies_at_time_step(t, role_of(r))]})
+            e = {"op": "occupancies_at_time_step", "S": S, "t": t, "role": r, "sig": "occupancies_at_time_step/role=" + r + tag}
+            if ivl:                                                  # the answers the obstacles themselves give at t
+                try:
+                    e["per"] = [{"id": o["id"], "occ": _occ_key(ob.occupancy_at_time(t))} for o, ob in zip(S, obs)]
+                except Exception:
+                    pass
+            call(e, lambda: {"k": "ok", "occs": [_occ_key(c) for c in sc.occupancies_at_time_step(t, role_of(r))]})
 
         def states():
             d = sc.obstacle_states_at_time_step(t)
             return {"k": "ok", "states": [dict(_state_key(s), id=i) for i, s in sorted(d.items())]}
-        call({"op": "obstacle_states_at_time_step", "S": S, "t": t, "sig": "obstacle_states_at_time_step"}, states)
+        call({"op": "obstacle_states_at_time_step", "S": S, "t": t, "sig": "obstacle_states_at_time_step" + tag}, states)
     for r in case["roles"]:
         for ty in case["types"]:
             sig = "obstacles_by_role_and_type/%s+%s" % ("phantom" if has_phantom else "no-phantom",
@@ -492,7 +517,7 @@ def _exec_sc(case):
     rs_name = {2: "default", 4: "all"}
     for rs in case["rolesets"]:
         grp = any(o["role"] in rs and o.get("shape", {}).get("k") == "group" for o in S)
-        sig = "obstacles_by_position_intervals/roles=%s/%s" % (rs_name.get(len(rs), rs[0]), "group-shape" if grp else "plain")
+        sig = "obstacles_by_position_intervals/roles=%s/%s" % (rs_name.get(len(rs), rs[0]), "group-shape" if grp else "plain") + tag
         for t in case["times"]:
             for ix in case["ivs"]:
                 for iy in case["ivs"]:
